@@ -79,6 +79,14 @@ ALL = [
     # Strict conformance class: adjacent links with different targets / anchors stay apart, whatever the namespace URIs are
     ('P41-strict-namespaces-adjacent-links', ['C10', 'C06', 'C13'], lambda: strict(docx(p(link('r:id="rId9"', r('«1»alpha')), link('r:id="rId8"', r('«2»beta')), link('r:id="rId8" w:anchor="g"', r('«3»gamma'))),
         docrels=LINK + [('rId8', 'hyperlink', 'http://beta.example/', True)]))),
+    # notes that hold inline content only (a display equation is block-level content, schema-valid): each keeps its label and its text,
+    # nothing is lost when the part ends
+    ('P42-notes-holding-only-equations', ['C02', 'C10', 'C01', 'C13', 'C19'], lambda: docx(p(r('«1»body'), '<w:r><w:footnoteReference w:id="1"/></w:r>', '<w:r><w:footnoteReference w:id="2"/></w:r>'),
+        parts={'footnotes.xml': ('footnotes', '<w:footnotes NS><w:footnote w:id="1"><m:oMathPara><m:oMath><m:r><m:t>«2»x</m:t></m:r></m:oMath></m:oMathPara></w:footnote>'
+                                 '<w:footnote w:id="2"><m:oMathPara><m:oMath><m:r><m:t>«3»y</m:t></m:r></m:oMath></m:oMathPara></w:footnote>'
+                                 '<w:footnote w:id="3"><w:p><w:r><w:t>«4»n3</w:t></w:r></w:p><m:oMathPara><m:oMath><m:r><m:t>«5»z</m:t></m:r></m:oMath></m:oMathPara></w:footnote></w:footnotes>')})),
+    ('P43-text-after-a-text-box-in-a-link-run', ['C07', 'C19', 'C10'], lambda: docx(p(r('«9»see '), link('r:id="rId9"', '<w:r><w:rPr><w:highlight w:val="yellow"/></w:rPr><w:t>«1»head </w:t><w:pict><v:shape><v:textbox><w:txbxContent>'
+        + p(r('«2»boxed ')) + '</w:txbxContent></v:textbox></v:shape></w:pict><w:t>«3»tail</w:t></w:r>')), docrels=LINK)),
     ('P15-links-different-anchors', ['C10', 'C06'], lambda: docx(p(link('r:id="rId9" w:anchor="a"', r('«1»x')), link('r:id="rId9" w:anchor="b"', r('«2»y'))), docrels=LINK)),
     ('P16-word-word', ['C09'], lambda: docx(p(r('body')), docrels=[('rId2', 'header', 'word/h.xml')], extra={'word/word/h.xml': f'<w:hdr {NS}>' + p(r('head-in-word-word')) + '</w:hdr>'})),
     ('P18-range-end-without-start', ['C13', 'C12'], lambda: docx(p(r('a'), '<w:commentRangeEnd w:id="5"/>', r('b', '<w:b/>')))),
